@@ -59,7 +59,14 @@ def short(s):
 
 def fkey(fn):
     """instantiation-independent function key: Class::name(param types)"""
-    return "%s(%s)" % (short(fn.qn), ",".join(short(fn.type(p["t"])) for p in fn.params))
+    return "%s(%s)" % (short(fn.qn), ",".join(_abst(short(fn.type(p["t"]))) for p in fn.params))
+
+
+def _abst(t):
+    """substituted template arguments in parameter types -> placeholders (keys must not depend on the instantiation)"""
+    t = re.sub(r"\b(long double|double|float)\b", "DT", t)
+    t = re.sub(r"\bunsigned (long long|long|int)\b|\bstd::uint(32|64)_t\b", "IT", t)
+    return t
 
 
 def unwrap(n):
@@ -214,6 +221,13 @@ def errors_in_family(fam, facts):
                     break
         if hit is not None:
             out.append("front-end error inside %s (%s:%s): %s" % (fkey(hit), rel(e["file"]), e["line"], e["msg"][:140]))
+        elif "/kernel/lafem/" in e["file"] or "/kernel/util/memory_pool" in e["file"]:
+            # a function whose body does not compile is not dumped at all: no rule would see it.
+            # known and unrelated: SparseMatrixBanded::ImageIterator::operator= assigns const members (only
+            # instantiated by the whole-class explicit instantiation of the driver)
+            if e["file"].endswith("sparse_matrix_banded.hpp") and "cannot assign to non-static data member" in e["msg"]:
+                continue
+            out.append("front-end error in %s:%s (the enclosing function is not analysable): %s" % (rel(e["file"]), e["line"], e["msg"][:140]))
     return sorted(set(out))
 
 
@@ -279,6 +293,10 @@ def join_state(a, b):
         return a
     out = {}
     for k in set(a) | set(b):
+        if k[0] == "fs":
+            if k in a and k in b and (a[k] & b[k]):
+                out[k] = a[k] & b[k]
+            continue
         if k not in a or k not in b:
             # object (local) only known on one path: keep what is known
             out[k] = a.get(k, b.get(k))
@@ -989,6 +1007,7 @@ class Interp:
 
     def kill(self, o, kind, st, how, line):
         """V is overwritten / emptied: nothing owned may be lost"""
+        st.pop(("fs", o, kind), None)
         vs = st[(o, kind)]
         name = "%s._%s" % (o.split("#")[0], kind)
         ok = vs.own in ("EMPTY", "NOREF", "UNCOUNTED", "MOVED")
@@ -1204,6 +1223,8 @@ class Interp:
             o = obj_id(a)
             if o is None:
                 continue
+            if getattr(self, "_moved_arg", None) == id(a):
+                continue
             self.ensure(st, o, self.obj_type(a))
             self.nevents += 1
             self.check_valid(o, st, "passed to %s" % short(n.get("callee", "")), n.get("l"))
@@ -1225,7 +1246,9 @@ class Interp:
     def apply_call(self, o, n, st, tstr, ctor=False):
         self.ensure(st, o, tstr) if not ctor else None
         callee = self.fam.callee_fn(self.fn, n)
-        summ = self.summary(callee) if callee is not None else None
+        if not ctor and self.move_transfer(o, n, st, callee):
+            return st
+        summ = self.summary(callee, n) if callee is not None else None
         if summ == "identity" and not ctor:
             return st          # the callee neither touches the arrays nor calls anything that does
         if summ == "identity":
@@ -1250,20 +1273,87 @@ class Interp:
         self.set_valid(st, o, cls_short)
         return st
 
-    def summary(self, callee):
+    def move_transfer(self, o, n, st, callee):
+        """`O.move(std::move(X))` (Container::move, itself verified): O takes over X's arrays, state and all.
+        X may be a named container, a family constructor temporary, or the value of X.clone(<constant mode>)."""
+        if n.get("n") != "move" or short(n.get("ccls", "")) != "Container" or len(n.get("a") or []) != 1:
+            return False
+        a = unwrap(n["a"][0])
+        src = obj_id(a)
+        new = None
+        if src is not None and ("flag", src) in st and src != o:
+            new = {k: st[(src, k)] for k in ("elements", "indices")}
+            new["flag"] = st[("flag", src)]
+            new["len"] = {k: st[("len", src, k)] for k in ("elements", "indices")}
+        elif a.get("k") in ("Construct", "TempObj") and short(a.get("ccls", "")) in self.fam.classes:
+            c2 = self.fam.callee_fn(self.fn, a)
+            sm = self.summary(c2, a) if c2 is not None else None
+            if sm and sm != "identity" and sm[0] in ("F", "T") and consistent(sm[1], sm[0]) and consistent(sm[2], sm[0]) and sm[1].own != "VALID" and sm[2].own != "VALID":
+                new = {"elements": sm[1], "indices": sm[2], "flag": sm[0], "len": None}
+        elif a.get("k") == "MCall" and a.get("n") == "clone" and short(a.get("ccls", "")) in self.fam.classes and a.get("a"):
+            mode = self.const_of(a["a"][-1])
+            base = self.fam.by_key.get("Container::clone(const Container &,CloneMode)")
+            if mode is not None and base is not None:
+                it = Interp(self.fam, base, env={base.params[1]["n"]: mode}, summaries=self.summaries, depth=self.depth + 1).run()
+                if not it.unknown and it.exits:
+                    stx = None
+                    for s_, _ in it.exits:
+                        stx = join_state(stx, s_)
+                    fl = stx.get(("flag", "this"))
+                    if fl in ("F", "T") and all(consistent(stx[("this", k)], fl) for k in ("elements", "indices")):
+                        new = {"elements": stx[("this", "elements")], "indices": stx[("this", "indices")], "flag": fl, "len": None}
+        if new is None:
+            return False
+        self.ensure(st, o, None)
+        self.check_valid(o, st, "the receiver of move()", n.get("l"))
+        self.fresh += 1
+        for k in ("elements", "indices"):
+            st[(o, k)] = VS(new[k].own, new[k].g, new[k].origin)
+            st.pop(("fs", o, k), None)
+            if new["len"] is not None:
+                st[("len", o, k)] = new["len"][k]
+            else:
+                sym = L0 if new[k].own == "EMPTY" else ("n:%s@%d/%s" % (o.split("#")[0], self.fresh, k), 0)
+                st[("len", o, k)] = (sym, sym)
+        st[("flag", o)] = new["flag"]
+        if src is not None and ("flag", src) in st and src != o:
+            for k in ("elements", "indices"):
+                st[(src, k)] = EMPTY
+                st[("len", src, k)] = (L0, L0)
+        self._moved_arg = id(n["a"][0])
+        return True
+
+    def call_env(self, callee, call):
+        """constant CloneMode arguments of a call -> environment of the callee"""
+        env = {}
+        if callee is None or call is None:
+            return env
+        for p, a in zip(callee.params, call.get("a") or []):
+            if short(callee.type(p["t"])).replace("const ", "").strip() == "CloneMode":
+                v = self.const_of(a)
+                if v is not None:
+                    env[p["n"]] = v
+        return env
+
+    def summary(self, callee, call=None):
         """(flag, elements, indices) of `this` at the normal exits of a family function"""
-        key = id(callee)
+        env = self.call_env(callee, call)
+        key = (id(callee), tuple(sorted(env.items()))) if env else id(callee)
         if key in self.summaries:
             return self.summaries[key]
         if self.depth > 6:
             return None
         self.summaries[key] = None     # recursion guard
-        it = Interp(self.fam, callee, summaries=self.summaries, depth=self.depth + 1).run()
+        it = Interp(self.fam, callee, env=env, summaries=self.summaries, depth=self.depth + 1).run()
         if it.unknown or not it.exits:
             return None
-        if it.nevents == 0 and not it.touched and not callee.d.get("ctor"):
-            self.summaries[key] = "identity"
-            return "identity"
+        if it.nevents == 0 and not callee.d.get("ctor"):
+            entry = {}
+            it.ensure(entry, "this")
+            if not it.touched or all(all(st.get(k) == v or (isinstance(st.get(k), VS) and st[k].own == "EMPTY") for k, v in entry.items()) for st, _ in it.exits):
+                # the callee neither changes the arrays' ownership/length state nor calls anything that does
+                self.summaries[key] = "identity"
+                return "identity"
         fl, ve, vi = None, None, None
         for st, _ in it.exits:
             f2, e2, i2 = st.get(("flag", "this")), st.get(("this", "elements")), st.get(("this", "indices"))
@@ -1331,6 +1421,8 @@ def _event(self, n, st, base_init, decl_obj):
             self.ob("release-before-overwrite", "%s/slot-assign" % name, ok,
                     "ok" if ok else "slot %s of %s overwritten with %s without a preceding release_memory of that slot / with a pointer that is not a fresh allocation" % (sk, name, render(e)[:60]), n.get("l"))
             st.pop(("rel", o, kind), None)
+            if ok and n.get("a") and unwrap(n["a"][0]).get("k") == "Int":
+                st[("fs", o, kind)] = frozenset(st.get(("fs", o, kind), frozenset()) | {int(unwrap(n["a"][0])["v"])})
             return st
         return st
     if k == "OpCall" and n.get("op") == "=" and n.get("a") and vec_member(n["a"][0]):
@@ -1491,7 +1583,145 @@ def _event_len(self, n, st, base_init, decl_obj):
     return _event(self, n, st, base_init, decl_obj)
 
 
-Interp.event = _event_len
+# ---- writes through index arrays (arrays in _indices are shared by Layout/Weak/Shallow clones, layout()) ----
+
+def _strip_ptr(e):
+    e = unwrap(e)
+    while e is not None and e.get("k") == "Cast" and e.get("e") is not None:
+        e = unwrap(e["e"])
+    return e
+
+
+def _idx_accessor_slot(self, callee):
+    """slot K if callee is a non-const parameterless member returning this->_indices.at(K)"""
+    memo = self.fam.__dict__.setdefault("_idxacc", {})
+    if id(callee) in memo:
+        return memo[id(callee)]
+    res = None
+    if callee is not None and not callee.params and not callee.d.get("const") and callee.body is not None:
+        ks = set()
+        ok = True
+        for r in walk(callee.body):
+            if r.get("k") == "Return" and r.get("e") is not None:
+                e = _strip_ptr(r["e"])
+                if e.get("k") == "Null":
+                    continue
+                if e.get("k") == "MCall" and e.get("n") in ("at", "operator[]") and vec_member(e.get("obj")) and vec_member(e["obj"])[0] == "indices" \
+                        and obj_id(vec_member(e["obj"])[1]) == "this" and e.get("a") and unwrap(e["a"][0]).get("k") == "Int":
+                    ks.add(int(unwrap(e["a"][0])["v"]))
+                else:
+                    ok = False
+        if ok and len(ks) == 1:
+            res = next(iter(ks))
+    memo[id(callee)] = res
+    return res
+
+
+def _idx_expr(self, e, depth=0):
+    """(object id, slot K or '?') if e is a pointer into an array stored in O._indices, else None"""
+    e = _strip_ptr(e)
+    if e is None or depth > 8:
+        return None
+    k = e.get("k")
+    if k == "MCall" and e.get("n") in VEC_SLOT and vec_member(e.get("obj")) and vec_member(e["obj"])[0] == "indices":
+        o = obj_id(vec_member(e["obj"])[1])
+        if o is None:
+            return None
+        a = e.get("a") or []
+        return o, (int(unwrap(a[0])["v"]) if a and unwrap(a[0]).get("k") == "Int" else "?")
+    if k == "OpCall" and e.get("op") == "[]" and e.get("a") and vec_member(e["a"][0]) and vec_member(e["a"][0])[0] == "indices":
+        o = obj_id(vec_member(e["a"][0])[1])
+        if o is None:
+            return None
+        i = unwrap(e["a"][1])
+        return o, (int(i["v"]) if i.get("k") == "Int" else "?")
+    if k == "MCall" and not e.get("a") and not e.get("cconst") and short(e.get("ccls", "")) in self.fam.classes:
+        o = obj_id(e["obj"]) if e.get("obj") is not None else "this"
+        if o is None:
+            return None
+        slot = _idx_accessor_slot(self, self.fam.callee_fn(self.fn, e))
+        return (o, slot) if slot is not None else None
+    if k == "Bin" and e.get("op") in ("+", "-"):
+        return _idx_expr(self, e["lhs"], depth + 1)
+    if k == "Un" and e.get("op") == "&":
+        x = unwrap(e["e"])
+        if x.get("k") == "Index":
+            return _idx_expr(self, x["b"], depth + 1)
+        return None
+    if k == "Ref" and e.get("dk") == "local" and "*" in self.fn.ntype(e):
+        defs = self.ptr_defs().get(e["d"], [])
+        got = [g for g in (_idx_expr(self, d, depth + 1) for d in defs) if g is not None]
+        if not got:
+            return None
+        if all(g == got[0] for g in got):
+            return got[0]
+        return got[0][0], "?"
+    return None
+
+
+def _ptr_defs(self):
+    if getattr(self, "_ptrdefs", None) is None:
+        d = {}
+        for n in self.fn.nodes():
+            if n.get("k") == "Var" and n.get("init") is not None and "*" in self.fn.type(n.get("t")):
+                d.setdefault(n["d"], []).append(n["init"])
+            if n.get("k") == "Assign" and n.get("op") == "=" and unwrap(n["lhs"]).get("k") == "Ref" and unwrap(n["lhs"]).get("dk") == "local":
+                d.setdefault(unwrap(n["lhs"])["d"], []).append(n["rhs"])
+        self._ptrdefs = d
+    return self._ptrdefs
+
+
+def _const_pointee(t):
+    t = (t or "").strip()
+    if "*" not in t and "&" not in t:
+        return True
+    head = t[:max(t.rfind("*"), 0)] if "*" in t else t
+    return bool(re.search(r"\bconst\b", head))
+
+
+def _idx_write(self, tgt, st, how, n):
+    o, slot = tgt
+    if ("flag", o) not in st:
+        return
+    vs = st[(o, "indices")]
+    fresh_all = vs.own == "OWN" and bool(vs.origin) and set(vs.origin) <= {"alloc"}
+    fresh = fresh_all or (slot != "?" and slot in st.get(("fs", o, "indices"), ()))
+    self.touched = True
+    self.ob("index-array-write", "%s._indices[%s]" % (o.split("#")[0], slot), fresh,
+            "ok: the array was allocated in this function" if fresh else
+            "%s writes through array %s of %s._indices, which this function did not allocate (state %r): index arrays are shared by reference count with "
+            "Layout/Weak/Shallow clones, layout() objects and matrices built from them, so their contents change too" % (how, slot, o.split("#")[0], vs), n.get("l"))
+
+
+def _event_idx(self, n, st, base_init, decl_obj):
+    k = n.get("k")
+    if k == "Assign" or (k == "Un" and n.get("op") in ("++", "--")):
+        l = unwrap(n["lhs"] if k == "Assign" else n["e"])
+        ptr = None
+        if l.get("k") == "Index":
+            ptr = l["b"]
+        elif l.get("k") == "Un" and l.get("op") == "*":
+            ptr = l["e"]
+        elif l.get("k") == "OpCall" and l.get("op") == "[]":
+            ptr = None
+        if ptr is not None:
+            tgt = _idx_expr(self, ptr)
+            if tgt is not None:
+                _idx_write(self, tgt, st, "store `%s`" % render(n)[:70], n)
+    elif is_call(n) and n.get("callee") not in (POOL + "release_memory", POOL + "increase_memory", POOL + "allocated_size"):
+        pts = n.get("pt") or []
+        for i, a in enumerate(n.get("a") or []):
+            t = self.fn.type(pts[i]) if i < len(pts) else ""
+            if "*" not in t or _const_pointee(t):
+                continue
+            tgt = _idx_expr(self, a)
+            if tgt is not None:
+                _idx_write(self, tgt, st, "call %s(... %s ...) (mutable parameter %s)" % (short(n.get("callee", "")), render(a)[:40], (n.get("pn") or ["?"] * (i + 1))[i] if i < len(n.get("pn") or []) else "?"), n)
+    return _event_len(self, n, st, base_init, decl_obj)
+
+
+Interp.event = _event_idx
+Interp.ptr_defs = _ptr_defs
 Interp.src_of_range = _src_of_range
 Interp.len_of_vec = _len_of_vec
 Interp.zero_len = _zero_len
